@@ -4,8 +4,9 @@ CLAIMS["C06"] = dict(
               "per-stream reference model (bounded depth, canonical-state pruning on the storages' private maps, deterministic virtual clock)",
     text="Sequential part of C06. For a UInt64 counter, a double counter (values multiples of 0.25, sums exact) and an Int64 up-down counter, with 0, 1 or 2 views on the "
          "instrument and 1..3 pull readers of mixed temporality, every history of Create(same name) (second handle) / Add(handle, value, attrs in {}, {a=1}, {a=2}) / "
-         "Collect(reader) is executed on the real SDK: quick = depth 5 (4 free operations + a final Collect) over 8 reader configurations (one per multiset of temporalities); "
-         "thorough = depth 5 over all 14 ordered reader configurations, depth 6 over the 5 configurations with at most two readers, and depth 7 with a reduced alphabet "
+         "Collect(reader) is executed on the real SDK (the last operation of a history is a Collect). Quick = depth 5 (4 free operations + final Collect), attrs {} and {a=1}, over 6 reader "
+         "configurations (D, C, DD, DC, DDC, DCC); thorough = depth 5 with all three attribute sets over 8 configurations (one per multiset of temporalities + CDD), and with a reduced alphabet "
+         "depth 5 over all 14 ordered reader configurations, depth 6 over the 8 and depth 7 over the 5 configurations with at most two readers "
          "(attrs {}, {a=1}; one value, up-down +1/-1). After every Collect: a delta point equals exactly what was added since that reader's previous collection (absent only when "
          "that is 0), a cumulative point equals the running total, every stream with due measurements is present, every handle counts, cumulative start = SDK start, delta start = "
          "end of that reader's previous interval (first: SDK start), end = time of the collection (bracketed by harness clock readings). Record/collect races are covered by the "
